@@ -16,6 +16,10 @@ The translator is a symbolic executor of the NumPy subset whose meaning does not
   index sets   np.where(mask) and boolean-mask subscripts are translated ONLY where they are used as a SET of nodes / pairs:
                X[mask], X[np.where(..)], v[i] / v[j] for i, j = np.where(M) (edge arrays), M[np.ix_(V, W)], len / .size /
                np.size of them, np.sum of what they select, X[set] = value, M[set, :] = c, M[:, set] = c
+  dtype guards `if not np.issubdtype(W.dtype, np.inexact): [raise ..] W = W.astype(float) elif copy: W = W.copy()`: the model has
+               exact rationals and no dtypes, so BOTH branches are executed and must leave the same values (promotion is
+               the identity on values; a branch that raises is the function refusing that dtype); the harness drives the
+               implementation with float AND int / bool arrays against the one generated program
   statements   assignments (-> LetS / LetV / LetM, one per Python assignment, dead ones dropped), augmented assignments,
                np.fill_diagonal, `if` on specialised parameters (copy=True, flag=..), calls of other bct functions (inlined by
                translating THEIR current source), `for u in range(n)` whose iterations are independent (iteration u reads
@@ -289,6 +293,19 @@ class InfConst:
     pass
 
 
+class DType:
+    """X.dtype of an array value"""
+    def __init__(self, arr):
+        self.arr = arr
+
+
+class DynDtype:
+    """the answer of np.issubdtype(X.dtype, np.inexact) for an array whose dtype the rational model does not know
+       (integer or floating); `neg`: under a `not`"""
+    def __init__(self, neg=False):
+        self.neg = neg
+
+
 class Poison:
     def __init__(self, why):
         self.why = why
@@ -423,6 +440,7 @@ class Tr:
         self.funcs = funcs
         self.b = Builder(nscalars)
         self.depth = 0
+        self.dtype_guards = 0     # dtype tests merged (see Frame.dtype_if)
 
     # ---------- function bodies
     def call_function(self, fname, args, kwargs, node=None, top=False):
@@ -541,8 +559,58 @@ class Frame:
             bad('reaches a raise statement', st)
         bad('statement %s' % type(st).__name__, st)
 
+    def dtype_if(self, st):
+        """`if [not] np.issubdtype(W.dtype, np.inexact): .. else: ..` on an array whose dtype the model does not know.
+           Both branches are executed; a branch that raises is the function refusing that dtype (nothing to model);
+           if both return normally they must leave the SAME values behind (promotion to float is the identity on the
+           exact rationals of the model) -- otherwise the function is dtype-dependent in value and is not translated."""
+        if self.loopvar is not None:
+            bad('dtype test inside a loop', st)
+        base_env, nlets = dict(self.env), len(self.b.lets)
+        outs = []
+        for branch in (st.body, st.orelse):
+            self.env = dict(base_env)
+            try:
+                self.block(branch)
+                if len(self.b.lets) != nlets:
+                    bad('a dtype-dependent branch computes new values', st)
+                outs.append(self.env)
+            except ReturnSignal:
+                bad('return inside a dtype-dependent branch', st)
+            except Untranslatable as ex:
+                if 'reaches a raise statement' not in str(ex):
+                    raise
+                del self.b.lets[nlets:]
+        self.env = base_env
+        if not outs:
+            bad('both dtype branches raise', st)
+        self.tr.dtype_guards += 1
+        if len(outs) == 1:
+            self.env = outs[0]
+            return
+
+        def same(a, b):
+            if a is b:
+                return True
+            if isinstance(a, Arr) and isinstance(b, Arr) and a.kind == b.kind and a.isbool == b.isbool:
+                cv = tuple(range(len(a.vars)))
+                ia, ib = a.inf_at(*cv), b.inf_at(*cv)
+                return a.at(*cv) == b.at(*cv) and ia == ib
+            return False
+        env = {}
+        for k in set(outs[0]) | set(outs[1]):
+            a, b = outs[0].get(k), outs[1].get(k)
+            if a is None or b is None or not same(a, b):
+                bad('the two dtype branches leave different values in %s' % k, st)
+            # aliasing: keep the branch that did NOT make a fresh buffer, if there is one
+            old = base_env.get(k)
+            env[k] = b if (isinstance(old, Arr) and isinstance(b, Arr) and b.oid == old.oid) else a
+        self.env = env
+
     def if_(self, st):
         c = self.expr(st.test)
+        if isinstance(c, DynDtype):
+            return self.dtype_if(st)
         if isinstance(c, Py):
             return self.block(st.body if c.v else st.orelse)
         if isinstance(c, Arr) and c.kind == 'S' and c.t[0] == 'Cst':
@@ -947,6 +1015,8 @@ class Frame:
         if src in ('np.nan', 'np.pi', 'np.e'):
             bad('constant ' + src, e)
         v = self.expr(e.value)
+        if e.attr == 'dtype' and isinstance(v, Arr):
+            return DType(v)
         if e.attr == 'T':
             return self.transpose(v, e)
         if e.attr == 'size':
@@ -1042,6 +1112,8 @@ class Frame:
         if isinstance(e.op, ast.UAdd):
             return v
         if isinstance(e.op, ast.Not):
+            if isinstance(v, DynDtype):
+                return DynDtype(not v.neg)
             if isinstance(v, Py):
                 return Py(not v.v)
             if isinstance(v, Arr) and v.kind == 'S' and v.inf is None:
@@ -1242,6 +1314,13 @@ class Frame:
                 bad('.%s()' % meth, e)
             bad('method .%s' % meth, e)
         # ---- numpy
+        if fn == 'np.issubdtype':
+            only(2)
+            d = ev(0)
+            if not (isinstance(d, DType) and ast.unparse(A[1]) in ('np.inexact', 'np.floating')):
+                bad('np.issubdtype form', e)
+            # a boolean array certainly is not floating; otherwise the model (exact rationals, no dtypes) cannot tell
+            return Py(False) if d.arr.isbool else DynDtype()
         if fn == 'np.sum':
             return self.np_sum(ev(0), self.reduce_axis(e, e), e)
         if fn in ('np.max', 'np.amax', 'np.min', 'np.amin'):
@@ -1673,7 +1752,7 @@ def load_funcs(repo):
 
 def translate_target(funcs, tg):
     """-> dict(name, outputs: [dict(name, prog | None, why)], why (whole-function failure) )"""
-    res = {'name': tg['name'], 'func': tg['func'], 'outputs': [], 'why': None, 'sha': None}
+    res = {'name': tg['name'], 'func': tg['func'], 'outputs': [], 'why': None, 'sha': None, 'dtype_guards': 0}
     fd = funcs.get(tg['func'])
     if fd is None or fd == 'ambiguous':
         res['why'] = 'function not found' if fd is None else 'ambiguous name'
@@ -1697,6 +1776,7 @@ def translate_target(funcs, tg):
     except RecursionError:
         res['why'] = 'recursion limit'
         return res
+    res['dtype_guards'] = tr.dtype_guards
     items = ret.items if isinstance(ret, PyTuple) else [ret]
     for k, it in enumerate(items):
         oname = tg['name'] if not isinstance(ret, PyTuple) else '%s#%d' % (tg['name'], k)
@@ -1718,7 +1798,8 @@ def build(repo):
         for o in r['outputs']:
             if o['prog'] is not None:
                 ident = 'gen_' + ''.join(c if c.isalnum() else '_' for c in o['name'])
-                table.append({'name': o['name'], 'ident': ident, 'prog': o['prog'], 'kind': o['kind'], 'target': tg, 'index': o['index'], 'size': o['size']})
+                table.append({'name': o['name'], 'ident': ident, 'prog': o['prog'], 'kind': o['kind'], 'target': tg, 'index': o['index'], 'size': o['size'],
+                              'dtype_guards': r['dtype_guards']})
     untranslatable = {}
     for r in results:
         if r['why']:
@@ -1821,9 +1902,12 @@ NEGATIVE = {
     'order of two nodes': "def f(A):\n    n = len(A)\n    C = np.zeros((n,))\n    for u in range(n):\n        for j in range(n):\n            if j < u:\n                C[u] += A[u, j]\n    return C",
     'last inner iteration wins': "def f(A):\n    n = len(A)\n    C = np.zeros((n,))\n    for u in range(n):\n        for j in range(n):\n            C[u] = A[u, j]\n    return C",
     'running sum read': "def f(A):\n    n = len(A)\n    C = np.zeros((n,))\n    for u in range(n):\n        for j in range(n):\n            C[u] += A[u, j] * C[u]\n    return C",
+    'dtype-dependent value': "def f(A):\n    if np.issubdtype(A.dtype, np.inexact):\n        A = A * 2\n    return A",
     'enumerate': "def f(A):\n    n = len(A)\n    C = np.zeros((n,))\n    for u, r in enumerate(A):\n        C[u] = np.sum(r)\n    return C",
 }
 POSITIVE = {
+    'dtype guard': ("def f(W, copy=True):\n    if not np.issubdtype(W.dtype, np.inexact):\n        if not copy:\n            raise ValueError('x')\n        W = W.astype(float)\n    elif copy:\n        W = W.copy()\n    W /= 2\n    return W",
+                    ('LetM', 1, ('Op', 'Div', ('Mx', 0, 0, 1), ('Cst', F(2))), ('OutM', ('Mx', 1, 0, 1)))),
     'reduction': ("def f(A):\n    n = len(A)\n    C = np.zeros((n,))\n    for u in range(n):\n        for j in range(n):\n            if j != u:\n                C[u] += A[j, u]\n    return C",
                   ('LetV', 1, ('Sum', 2, ('If', ('If', ('IEq', 2, 0), ('Cst', F(0)), ('Cst', F(1))), ('Mx', 0, 2, 0), ('Cst', F(0)))), ('OutV', ('Vc', 1, 0)))),
     'degree': ("def f(A):\n    return np.sum(A != 0, axis=0)", ('OutV', ('Sum', 2, ('If', ('Op', 'Eqq', ('Mx', 0, 2, 0), ('Cst', F(0))), ('Cst', F(0)), ('Cst', F(1)))))),
